@@ -69,6 +69,15 @@ CHECKS["C16"] = dict(
     note=NOTE_COMMON + "Arc._svg_parameterize replaced by a recorder with symbolic sweep. Two known findings (views of closed subpaths without their own move; double closepath). "
          "Outside: arc point(t) symmetry, fragments whose first segment has no start point.")
 
+CHECKS["C18"] = dict(
+    text="Aliasing as information flow: for every element kind x every applicable derivation (copy, *M, abs, Path(x), Path(subpath), copy(subpath), subpath*M, group "
+         "copy, ~, @, +) the real objects are built, one side is mutated through every public mutation (values written are fresh solver variables), and the value "
+         "snapshot of the other side is proved unchanged for all values; operator purity (operands of *, +, abs, ~ unchanged, incl. the other operand) and value "
+         "equality of copies; single mutations for all kinds and all ordered pairs for Path/Polyline/Rect/Group (thorough: pairs for all, triples for Path/Group).",
+    ref="DESIGN.md 4/C18",
+    note=NOTE_COMMON + "The property is value-independent, so the solver's role is to exclude coincidences: a shared sub-object makes a fresh variable appear in the "
+         "untouched snapshot and the equality query satisfiable. Outside: longer histories; colour mutations use concrete values; Image pixel data.")
+
 NOT_APPLICABLE = {
 }
 
